@@ -69,19 +69,19 @@ def create_output(ctx):
                 continue
             # exception edges out of the later acquisition
             for h, lab in cfg.succ[ns.id]:
-                if lab != "exc":
-                    continue
+                if lab != "exc" or cfg.nodes[h].kind != "except":
+                    continue      # only failures the code itself handles (name clashes) are in the model
                 checked += 1
                 wit = None
                 for tg in targets:
-                    p = cfg.path(h, tg, skip=rel)
+                    p = _path_pruned(cfg, h, tg, rel, rname)
                     if p is not None:
                         wit = p
                         break
                 wit_rm = None
                 if wit is None:
                     for tg in targets:
-                        p = cfg.path(h, tg, skip=rm)
+                        p = _path_pruned(cfg, h, tg, rm, rname)
                         if p is not None:
                             wit_rm = p
                             break
@@ -108,6 +108,39 @@ def create_output(ctx):
     ctx.ob("R15.3", "a name clash bumps the serial number and retries", ok, detail=[norm(h)[:120] for h in hs], where=f.fq,
            construct="serial-number retry", loc=loc(f, fn), message="the FileExistsError handler does not increment the serial and retry",
            consequence="an existing output file is overwritten or the solver loops forever")
+
+
+def _path_pruned(cfg, src, dst, skip, rname):
+    """cfg.path that never takes the branch of `if <rname> is [not] None` on which rname would be unbound."""
+    from collections import deque
+    skip = set(skip)
+    prev = {}
+    dq = deque([src])
+    seen = {src}
+    while dq:
+        u = dq.popleft()
+        if u == dst:
+            out = []
+            while u != src:
+                p, lab = prev[u]
+                out.append((u, lab))
+                u = p
+            out.append((src, "start"))
+            return out[::-1]
+        n = cfg.nodes[u]
+        for v, lab in cfg.succ[u]:
+            if v in skip or v in seen:
+                continue
+            if lab == "exc":
+                continue      # a failure of the cleanup itself is outside the model
+            if n.kind == "if" and n.ast is not None:
+                t = norm(n.ast.test)
+                if (t == f"{rname} is not None" and lab == "false") or (t == f"{rname} is None" and lab == "true"):
+                    continue
+            seen.add(v)
+            prev[v] = (u, lab)
+            dq.append(v)
+    return None
 
 
 def context_manager(ctx):
